@@ -218,8 +218,7 @@ def nraise(prot) -> int:
 # ---------------------------------------------------------------------------
 # rendering
 
-PRELUDE_PLAIN = '''
-class E(Exception): pass
+PRELUDE_PLAIN = '''class E(Exception): pass
 def c() -> bool: return True
 def it() -> list[int]: return []
 def boom() -> None: pass
@@ -229,7 +228,6 @@ class CmS:
 class CmN:
     def __enter__(self) -> None: pass
     def __exit__(self, *a: object) -> None: pass
-v = 0
 '''
 
 
@@ -402,7 +400,7 @@ def render_instr(mode, body, name="f"):
 
 
 class Abort(BaseException):
-    """Ends a run (unbound use observed / `while True` cap reached); passes through every handler."""
+    """Ends a run (`while True` iteration cap reached); passes through every handler."""
 
 
 class E(Exception):
@@ -432,7 +430,8 @@ class Oracle:
         self.L = L
         self.liberal = liberal
         self.max_dec = max_dec
-        self.obs = set()
+        self.obs = set()   # observations of real executions
+        self.zobs = set()  # observations after an UNBOUND read of the same run (only widen the upper bound)
         self.use_events = 0
         self.reset(())
 
@@ -440,6 +439,7 @@ class Oracle:
         self.prefix = prefix
         self.trace = []
         self.dead = False
+        self.zombie = False
         self.trunc = False
 
     def q(self, n):
@@ -523,10 +523,12 @@ class Oracle:
         if self.dead:
             return
         self.use_events += 1
+        (self.zobs if self.zombie else self.obs).add((site, UNB if val is None else val))
         if val is None:
-            self.obs.add((site, UNB))
-            self.kill()
-        self.obs.add((site, val))
+            # CPython raises NameError here, i.e. takes an exception edge at a non-call.  What follows is
+            # not a strict execution any more; it is still a path of the CFG (a reaching-definitions
+            # analysis does not stop at a use), so it keeps counting towards the upper bound only.
+            self.zombie = True
         self.boom(n)
 
 
@@ -534,12 +536,16 @@ def compile_instr(mode, body):
     src = "\n".join(render_instr(mode, body)) + "\n"
     ns = {"E": E, "v": 0}
     exec(compile(src, "<c09-instr>", "exec"), ns)
+    # global mode, liberal space: f may run after an earlier invocation of itself, so the module variable
+    # may hold 0 or any literal f assigns when f is entered
+    ns["__entry__"] = [0] + sorted(number(body)[0].values()) if mode == "global" else [0]
     return ns
 
 
 def explore(ns, L: int, liberal: bool, max_dec: int = 18, max_runs: int = 1 << 14):
-    """DFS over the prefix tree of decision vectors. -> (obs set, runs, complete?, use_events, errors)."""
+    """DFS over the prefix tree of decision vectors. -> (obs, zombie obs, runs, complete?, use_events, errors)."""
     fn = ns["f"]
+    entry = ns["__entry__"]
     D = Oracle(L, liberal, max_dec)
     prefix = ()
     runs = 0
@@ -547,7 +553,7 @@ def explore(ns, L: int, liberal: bool, max_dec: int = 18, max_runs: int = 1 << 1
     errors = []
     while True:
         D.reset(prefix)
-        ns["v"] = 0
+        ns["v"] = entry[D.q(len(entry))] if liberal and len(entry) > 1 else 0
         try:
             fn(D)
         except (Abort, E, Other):
@@ -567,7 +573,7 @@ def explore(ns, L: int, liberal: bool, max_dec: int = 18, max_runs: int = 1 << 1
             complete = False
             break
         prefix = tuple(c for c, _ in tr[:i]) + (tr[i][0] + 1,)
-    return D.obs, runs, complete, D.use_events, errors
+    return D.obs, D.zobs, runs, complete, D.use_events, errors
 
 
 # ---------------------------------------------------------------------------
@@ -583,7 +589,7 @@ _EMPTY = frozenset()
 CH = ("n", "b", "c", "r", "E", "O")
 
 
-def cfg_reaching(mode, body, liberal: bool):
+def cfg_reaching(mode, body, liberal: bool, stop_at_unbound: bool):
     lits, sites = number(body)
     obs = {s: set() for s in sites.values()}
     hlit = [lits[p] for p, s in walk(body) if s[0] == "hdef"]
@@ -605,7 +611,8 @@ def cfg_reaching(mode, body, liberal: bool):
 
     def do_use(site, st, o):
         obs[site] |= st
-        st = st - {UNB}  # an unbound read ends the run
+        if stop_at_unbound:
+            st = st - {UNB}  # an unbound read ends the real execution
         call(st, o)
         return st
 
@@ -674,9 +681,11 @@ def cfg_reaching(mode, body, liberal: bool):
         elif k == "with":
             call(st, o)  # cm()
             bo = block(s[2], f"with{s[1]}-body", p, st)
-            merge(o, bo)
-            if s[1] == "S":
+            if s[1] == "S":  # raised states continue after the with instead of propagating
+                merge(o, bo, skip=("E", "O"))
                 o["n"] |= bo["E"] | bo["O"]
+            else:
+                merge(o, bo)
         else:
             raise ValueError(k)
         if liberal and o["n"]:
@@ -694,7 +703,11 @@ def cfg_reaching(mode, body, liberal: bool):
         o["n"] = st
         return o
 
-    block(body, "top", (), frozenset([0 if mode == "global" else UNB]))
+    if mode == "global":
+        entry = frozenset([0] + (sorted(lits.values()) if liberal else []))
+    else:
+        entry = frozenset([UNB])
+    block(body, "top", (), entry)
     return {(s, x) for s, vals in obs.items() for x in vals}
 
 
@@ -856,37 +869,46 @@ def enumerate_skeletons(max_stmts: int, max_depth: int):
                     yield mode, body
 
 
-def random_skeleton(rng: random.Random, n_stmts: int, max_depth: int):
-    """One random junk-free skeleton with about n_stmts statements (None if the draw was invalid)."""
-    mode = "global" if rng.random() < 0.12 else "local"
-    nested = mode == "local" and rng.random() < 0.25
-    defs = []
+_FORM_WEIGHTS = {"if": 3, "while": 3, "wtrue": 4, "for": 3, "try": 1.2, "with": 2}
 
-    def block(n, lvl, in_loop, prot, top, must=True):
+
+def random_skeleton(rng: random.Random, n_stmts: int, max_depth: int):
+    """One random skeleton with about n_stmts statements (None if the draw was invalid or junk)."""
+    mode = "global" if rng.random() < 0.1 else "local"
+    want = set()
+    if mode == "local" and rng.random() < 0.3:
+        want = rng.choice(({"g"}, {"h"}, {"g", "h"}))
+    defs = []
+    weights = [_FORM_WEIGHTS[f[0]] for f in COMPOUND_FORMS]
+
+    def block(n, lvl, in_loop, prot, top):
         out = []
         while n > 0:
-            s, used = stmt(n, lvl, in_loop, prot, top)
+            if top:
+                for d in sorted(want - set(defs)):
+                    if n > 1 and rng.random() < 0.6:
+                        defs.append(d)
+                        out.append((d + "def",))
+                        n -= 1
+            s, used = stmt(n, lvl, in_loop, prot)
             out.append(s)
             n -= used
             if not completes(s):
                 break
         return tuple(out)
 
-    def stmt(n, lvl, in_loop, prot, top):
+    def stmt(n, lvl, in_loop, prot):
         if n >= 2 and lvl < max_depth and rng.random() < 0.55:
-            form = rng.choice(COMPOUND_FORMS)
+            form = rng.choices(COMPOUND_FORMS, weights)[0]
             k = form[0]
             m = n - 1
             nl = lvl + 1
             if k in ("if", "while", "for"):
-                a = rng.randint(1, m) if form[2] and m >= 2 else m
-                if form[2] and m < 2:
-                    a = m
+                a = rng.randint(1, m - 1) if form[2] and m >= 2 else m
                 x = block(a, nl, in_loop or k != "if", prot, False)
-                used_x = size(x)
-                b = min(m - used_x, rng.randint(1, max(1, m - used_x))) if form[2] and m - used_x > 0 else 0
-                y = block(b, nl, in_loop, prot, False) if b else ()
-                return (k, x, y), 1 + used_x + size(y)
+                left = m - size(x)
+                y = block(rng.randint(1, left), nl, in_loop, prot, False) if form[2] and left > 0 else ()
+                return (k, x, y), 1 + size(x) + size(y)
             if k == "wtrue":
                 x = block(m, nl, True, prot, False)
                 return ("wtrue", x), 1 + size(x)
@@ -914,22 +936,15 @@ def random_skeleton(rng: random.Random, n_stmts: int, max_depth: int):
             if h is None and not f:
                 h = ()
             return ("try", body, h, e, f), 1 + size(body) + size(h or ()) + size(e) + size(f)
-        pool = ["asg", "asg", "asg", "use", "use", "use", "return", "raise"]
+        pool = ["asg"] * 4 + ["use"] * 4 + ["return", "raise"]
         if in_loop:
-            pool += ["break", "continue", "break"]
+            pool += ["break", "break", "continue", "continue"]
         if prot:
             pool += ["boom", "boom"]
-        if nested:
-            if top and "g" not in defs and rng.random() < 0.5:
-                defs.append("g")
-                return ("gdef",), 1
-            if top and "h" not in defs and rng.random() < 0.5:
-                defs.append("h")
-                return ("hdef",), 1
-            if "g" in defs:
-                pool.append("gcall")
-            if "h" in defs:
-                pool.append("hcall")
+        if "g" in defs:
+            pool += ["gcall", "gcall"]
+        if "h" in defs:
+            pool += ["hcall", "hcall"]
         return (rng.choice(pool),), 1
 
     body = block(n_stmts, 0, False, False, True)
